@@ -5,7 +5,7 @@ Nothing here decides a property.  SimNet only (a) gives the real code syscall re
 give (short writes, EAGAIN, EOF, reset, injected errnos), under the control of a schedule, and (b) records
 one event per syscall of the proxy and per step of a peer.  The recorded events are judged by TLC.
 
-Kernel behaviours modelled (see DESIGN.md section 3; checked against real sockets by checks/simkernel.py):
+Kernel behaviours modelled (see DESIGN.md section 3; probed against loopback TCP by tools/kernel_probe.py):
   * a stream socket pair is two bounded byte queues; send() accepts min(len, room) bytes or raises
     BlockingIOError when there is no room; recv() returns a prefix of what is queued, b'' after the peer
     shut down / closed its writing side, raises BlockingIOError otherwise;
@@ -95,6 +95,7 @@ class SimSocket:
         self.closed = False
         self.wr_shut = False
         self.got_rst = False
+        self.rst_reported = False   # the pending error of a received RST has been handed to the application
         self.traced = False         # proxy-side endpoints are traced
         self.armed = {}             # op -> [exception, ...] one-shot injected faults
         self.blocking = True
@@ -188,6 +189,10 @@ class SimSocket:
                     raise f
                 finally:
                     del f            # no frame -> exception -> traceback -> frame cycle: the work must die by refcount as in CPython
+            if self.got_rst and not self.rst_reported:
+                # the pending socket error of a received RST is reported once, by whichever call comes first (Linux: sk_err)
+                self.rst_reported = True
+                raise ConnectionResetError(errno.ECONNRESET, 'Connection reset by peer')
             if self.got_rst or self.wr_shut or self.peer is None or self.peer.closed:
                 raise BrokenPipeError(errno.EPIPE, 'Broken pipe')
             room = self.peer.cap - len(self.peer.rx)
@@ -227,8 +232,11 @@ class SimSocket:
             if self.rx:
                 d = bytes(self.rx[:bufsize])
                 del self.rx[:bufsize]
-            elif self.got_rst:
+            elif self.got_rst and not self.rst_reported:
+                self.rst_reported = True
                 raise ConnectionResetError(errno.ECONNRESET, 'Connection reset by peer')
+            elif self.got_rst:
+                d = b''
             elif self.peer is None or self.peer.closed or self.peer.wr_shut:
                 d = b''
             else:
